@@ -16,7 +16,9 @@ Open Scope Z_scope.
 
 (* [cb_wf]: the four Bezier scratch vectors have the same length -- an
    invariant of the private fields (Default + extend_exact), preserved by
-   every operation; path, lengths and vertices buffers are arbitrary. *)
+   every operation; path, lengths and vertices buffers are arbitrary.
+   All statements hold for EVERY control-point list, the empty one included
+   (since the repair of D7: path.clear() precedes the early return). *)
 
 (* the Bezier routine with scratch buffers, explicit stack and buffer reuse
    against the pure de Casteljau recursion: same emitted vertices *)
@@ -33,7 +35,7 @@ Print Assumptions C18_bezier_scratch_buffers_irrelevant.
 (* Curve::new: result = pure curve; the buffers stay well-formed and their
    path/lengths are taken (empty afterwards) *)
 Theorem C18_owned_is_pure :
-  forall lm fuel mode pts e bufs, pts <> [] -> cb_wf bufs ->
+  forall lm fuel mode pts e bufs, cb_wf bufs ->
   match curve_L1 lm fuel mode pts e with
   | Done c => exists bufs', curve_new_L0 lm fuel mode pts e bufs = Done (c, bufs') /\ cb_wf bufs'
                             /\ cb_path bufs' = [] /\ cb_lengths bufs' = []
@@ -45,7 +47,7 @@ Print Assumptions C18_owned_is_pure.
 
 (* BorrowedCurve::new: the view of the buffers is the pure curve *)
 Theorem C18_borrowed_is_pure :
-  forall lm fuel mode pts e bufs, pts <> [] -> cb_wf bufs ->
+  forall lm fuel mode pts e bufs, cb_wf bufs ->
   match curve_L1 lm fuel mode pts e with
   | Done c => exists bufs', borrowed_new_L0 lm fuel mode pts e bufs = Done (c, bufs') /\ cb_wf bufs'
                             /\ cb_path bufs' = c_path c /\ cb_lengths bufs' = c_lengths c
@@ -55,57 +57,35 @@ Theorem C18_borrowed_is_pure :
 Proof. exact borrowed_new_refines. Qed.
 Print Assumptions C18_borrowed_is_pure.
 
-(* in the form of DESIGN T18a *)
+(* T18a in the form of DESIGN: all lists, all prior buffer contents *)
 Theorem C18_T18a_owned :
-  forall lm fuel mode pts e bufs, pts <> [] -> cb_wf bufs ->
+  forall lm fuel mode pts e bufs, cb_wf bufs ->
   ores (curve_new_L0 lm fuel mode pts e bufs) = curve_L1 lm fuel mode pts e.
 Proof. exact curve_new_result. Qed.
 Print Assumptions C18_T18a_owned.
 
 Theorem C18_T18a_borrowed :
-  forall lm fuel mode pts e bufs, pts <> [] -> cb_wf bufs ->
+  forall lm fuel mode pts e bufs, cb_wf bufs ->
   ores (borrowed_new_L0 lm fuel mode pts e bufs) = curve_L1 lm fuel mode pts e.
 Proof. exact borrowed_new_result. Qed.
 Print Assumptions C18_T18a_borrowed.
 
 (* owned and borrowed constructors agree, on any two buffer sets *)
 Theorem C18_owned_borrowed_agree :
-  forall lm fuel mode pts e bufs1 bufs2, pts <> [] -> cb_wf bufs1 -> cb_wf bufs2 ->
+  forall lm fuel mode pts e bufs1 bufs2, cb_wf bufs1 -> cb_wf bufs2 ->
   ores (curve_new_L0 lm fuel mode pts e bufs1) = ores (borrowed_new_L0 lm fuel mode pts e bufs2).
 Proof. exact owned_borrowed_agree. Qed.
 Print Assumptions C18_owned_borrowed_agree.
 
-(* the empty list is fine as long as the path buffer is empty (fresh buffers,
-   or after any owned computation) *)
-Theorem C18_empty_list_clean_buffers :
-  forall lm fuel mode e bufs, cb_path bufs = [] ->
-  ores (curve_new_L0 lm fuel mode [] e bufs) = curve_L1 lm fuel mode [] e /\
-  ores (borrowed_new_L0 lm fuel mode [] e bufs) = curve_L1 lm fuel mode [] e.
-Proof. exact curve_new_nil_clean. Qed.
-Print Assumptions C18_empty_list_clean_buffers.
-
-(* FULL STATEMENT (property text: "... including for an empty control-point
-   list"):
-     forall lm fuel mode pts e bufs, cb_wf bufs ->
-       ores (borrowed_new_L0 lm fuel mode pts e bufs) = curve_L1 lm fuel mode pts e.
-   It is FALSE of the code (defect D7): calculate_path returns on an empty
-   list before path.clear(), so the curve is built from whatever path the
-   buffers still hold.  Exact behaviour ([compute_nil]) and the witness: *)
-Theorem C18_empty_list_is_calculate_length_of_stale_path :
-  forall lm fuel mode e bufs,
-  compute_L0 lm fuel mode [] e bufs = calculate_length_L0 bufs e D.zero.
-Proof. exact compute_nil. Qed.
-Print Assumptions C18_empty_list_is_calculate_length_of_stale_path.
-
-Theorem C18_T18a_all_lists_refuted :
-  forall lm fuel mode e,
-  exists bufs, cb_wf bufs /\
-    ores (borrowed_new_L0 lm fuel mode [] e bufs) <> curve_L1 lm fuel mode [] e.
-Proof.
-  intros lm fuel mode e. exists d7_bufs.
-  destruct (d7_refutes lm fuel mode e) as (H1 & _ & _ & H4). split; assumption.
-Qed.
-Print Assumptions C18_T18a_all_lists_refuted.
+(* the empty list: no vertex and the single cumulative length 0.0, through
+   either constructor, whatever the buffers held before *)
+Theorem C18_empty_list_any_buffers :
+  forall lm fuel mode e bufs, cb_wf bufs ->
+  curve_L1 lm fuel mode [] e = Done (mkCurve [] [D.zero]) /\
+  ores (curve_new_L0 lm fuel mode [] e bufs) = Done (mkCurve [] [D.zero]) /\
+  ores (borrowed_new_L0 lm fuel mode [] e bufs) = Done (mkCurve [] [D.zero]).
+Proof. exact empty_list_curve. Qed.
+Print Assumptions C18_empty_list_any_buffers.
 
 (* ---------- T18b: the SliderPath cache ---------- *)
 
@@ -118,17 +98,15 @@ Theorem C18_mutation_invalidates :
 Proof. exact mutation_invalidates. Qed.
 Print Assumptions C18_mutation_invalidates.
 
-(* for every history over {curve, curve_with_bufs, borrowed_curve,
+(* for EVERY history over {curve, curve_with_bufs, borrowed_curve,
    control_points_mut (+write), expected_dist_mut (+write), clear_curve} and
    owned/borrowed computations of other curves on the same buffers: what the
    caller reads is what the cache-free, buffer-free specification computes
    from the current fields; the invariant "cache empty or curve of the
-   current fields" and buffer well-formedness hold at the end.
-   [hist_safe] is the D7 exclusion along the run: an empty list is only ever
-   computed through the shared buffers when their path buffer is empty. *)
+   current fields" and buffer well-formedness hold at the end *)
 Theorem C18_slider_path_histories :
   forall lm fuel ops sp bufs,
-  cache_ok lm fuel sp -> cb_wf bufs -> hist_safe lm fuel sp bufs ops ->
+  cache_ok lm fuel sp -> cb_wf bufs ->
   results (sp_run lm fuel sp bufs ops) = spec_run lm fuel (sp_clear sp) ops /\
   match sp_run lm fuel sp bufs ops with
   | Done (sp', bufs', _) => cache_ok lm fuel sp' /\ cb_wf bufs'
@@ -137,27 +115,12 @@ Theorem C18_slider_path_histories :
 Proof. intros lm fuel ops. exact (sp_run_spec lm fuel ops). Qed.
 Print Assumptions C18_slider_path_histories.
 
-(* the side condition holds for (a) histories without empty lists ... *)
-Theorem C18_histories_without_empty_lists :
-  forall lm fuel ops sp bufs,
-  cache_ok lm fuel sp -> cb_wf bufs -> sp_cps sp <> [] -> Forall op_nonempty ops ->
-  results (sp_run lm fuel sp bufs ops) = spec_run lm fuel (sp_clear sp) ops.
-Proof. exact sp_run_spec_nonempty. Qed.
-Print Assumptions C18_histories_without_empty_lists.
-
-(* ... and (b) histories with empty lists but without borrowed computations *)
-Theorem C18_histories_without_borrowed_computations :
-  forall lm fuel ops sp bufs,
-  cache_ok lm fuel sp -> cb_wf bufs -> cb_path bufs = [] -> Forall op_no_borrow ops ->
-  results (sp_run lm fuel sp bufs ops) = spec_run lm fuel (sp_clear sp) ops.
-Proof. exact sp_run_spec_no_borrow. Qed.
-Print Assumptions C18_histories_without_borrowed_computations.
-
-(* a fresh SliderPath and default buffers satisfy the hypotheses *)
-Theorem C18_initial_state :
-  forall lm fuel mode cps e, cache_ok lm fuel (sp_new mode cps e) /\ cb_wf bufs_default /\ cb_path bufs_default = [].
-Proof. intros. split; [exact I|]. split; [exact cb_wf_default|reflexivity]. Qed.
-Print Assumptions C18_initial_state.
+(* in particular from SliderPath::new and CurveBuffers::default() *)
+Theorem C18_histories_from_fresh_state :
+  forall lm fuel ops mode cps e,
+  results (sp_run lm fuel (sp_new mode cps e) bufs_default ops) = spec_run lm fuel (sp_new mode cps e) ops.
+Proof. exact sp_run_spec_fresh. Qed.
+Print Assumptions C18_histories_from_fresh_state.
 
 (* ---------- witnesses on concrete runs (dumps: floats carry proof terms) ---------- *)
 
@@ -174,18 +137,15 @@ Definition dump_reads (o : outcome (SliderPath * CurveBuffers * list (option Cur
   | OutOfFuel => [2]
   end.
 
-(* D7 on a reachable state: a borrowed computation of a 2-point line, then the
-   empty list through the same buffers returns the line again (2 vertices,
-   distance 5.0) where the pure curve has no vertex and distance 0 *)
-Example C18_D7_witness_run :
+(* the former D7 scenario: a borrowed computation of a 2-point line, then the
+   empty list through the same buffers by all three read APIs -- now the
+   empty curve (no vertex, lengths [0.0]) each time *)
+Example C18_empty_list_after_borrowed_run :
   dump_reads (sp_run lm0 bezier_fuel (sp_new 0 [] None) bufs_default
-                [OpBorrowedOther 0 line2 None; OpBorrowed; OpCurveWithBufs; OpCurve])
+                [OpBorrowedOther 0 line2 None; OpBorrowed; OpCurveWithBufs; OpCurve; OpBorrowedOther 0 [] (Some (D.of_Z 3))])
   = [0; 2; 0; 0; S.bits (S.of_Z 3); S.bits (S.of_Z 4); 2; 0; D.bits (D.of_Z 5);
-     0; 2; 0; 0; S.bits (S.of_Z 3); S.bits (S.of_Z 4); 2; 0; D.bits (D.of_Z 5);
-     0; 2; 0; 0; S.bits (S.of_Z 3); S.bits (S.of_Z 4); 2; 0; D.bits (D.of_Z 5);
-     0; 2; 0; 0; S.bits (S.of_Z 3); S.bits (S.of_Z 4); 2; 0; D.bits (D.of_Z 5)]
-  /\ dump_out dump_curve (curve_L1 lm0 bezier_fuel 0 [] None) = [0; 0; 1; 0].
-Proof. vm_compute. split; reflexivity. Qed.
+     0; 0; 1; 0;  0; 0; 1; 0;  0; 0; 1; 0;  0; 0; 1; 0].
+Proof. vm_compute. reflexivity. Qed.
 
 (* non-vacuity: a history with mutation and all three read APIs over a Bezier
    segment (scratch buffers dirty from an earlier, different computation):
